@@ -1,4 +1,5 @@
 import HeimdallModel.Lemmas.Factory
+import HeimdallModel.Lemmas.FactoryOverride
 /-!
 # C14 — effective pipelines follow stage-wise inheritance; malformed rules are rejected
 
@@ -10,7 +11,7 @@ function `Factory.load` these theorems are about).
 All statements hold for every mechanism catalogue, both operation modes, every default rule (absent, partial,
 complete, malformed) and every rule definition — lists of any length, any mix of keys, conditions and overrides.
 The specification they refer to (`own`, `inherit`, `Ordered`, `WellFormed`, `Spec.effective`) is in
-`Spec/Inheritance.lean`.
+`Spec/Inheritance.lean`.  The last section is about rule-level overrides as typed values (`Model/FactoryOverride.lean`).
 -/
 namespace Heimdall.Props.C14
 open Heimdall.Factory
@@ -362,5 +363,140 @@ theorem c14_spec_oracle_history (cat : Catalogue) (proxy validated : Bool) (d : 
     cases hf : newFactory cat proxy d with
     | error why => simp [hcb]
     | ok f => exact absurd ((newFactory_ok_iff cat proxy d f).mp hf).1 hc
+
+/-! ## Rule-level overrides are values: every rule is judged by its OWN override, whatever was created before
+
+`Model/FactoryOverride.lean`: a `config` is a typed value tree (`Val`); what `prototype.WithConfig` returns is a
+function `overlay` of the prototype and that value; `Typed.catalogue` is the abstract catalogue (accepted tags) that
+a typed catalogue and a table of values induce, so every theorem above applies to it. -/
+
+/-- an anonymous authenticator (subject `anon`), a header finalizer and a www_authenticate error handler -/
+def typed₀ : Typed :=
+  { mech := fun k id =>
+      match k, id with
+      | .authn, "anon" => some { type := .anonymous, proto := { subject := t!"anon" } }
+      | .fin, "f1" => some { type := .header, proto := { headers := [(t!"X-Fin", t!"f1/base")] } }
+      | .eh, "w1" => some { type := .wwwAuthenticate, proto := { realm := t!"base" } }
+      | _, _ => none
+    ovr := fun n =>
+      match n with
+      | 100 => some (.obj (.cons t!"subject" (.str t!"1") .nil))      -- subject: "1"
+      | 101 => some (.obj (.cons t!"subject" (.num 1) .nil))          -- subject: 1
+      | 102 => some (.obj (.cons t!"headers" (.obj (.cons t!"X-A" (.str t!"1 X-B:2") .nil)) .nil))
+      | 103 => some (.obj (.cons t!"headers" (.obj (.cons t!"X-A" (.str t!"1") (.cons t!"X-B" (.str t!"2") .nil))) .nil))
+      | _ => none
+    tags := [100, 101, 102, 103] }
+
+/-- the two subjects, and the two header maps, print alike — and are different values -/
+example : (typed₀.ovr 100).map Val.render = (typed₀.ovr 101).map Val.render ∧ typed₀.ovr 100 ≠ typed₀.ovr 101 ∧
+    (typed₀.ovr 102).map Val.render = (typed₀.ovr 103).map Val.render ∧ typed₀.ovr 102 ≠ typed₀.ovr 103 ∧
+    Val.render (.str t!"[a b]") = Val.render (.list (.cons (.str t!"a") (.cons (.str t!"b") .nil))) ∧
+    Val.render (.str t!"<nil>") = Val.render .null ∧ Val.render (.str t!"true") = Val.render (.bool true) := by decide
+
+/-- **A variant is a function of the prototype and the rule's own override value.**  In every history of `Create…`
+calls on one mechanism factory, the answer to a call is `WithConfig` of the catalogue entry with the value of
+*that* call: nothing an earlier (or later) call was given plays a role. -/
+theorem c14_variant_is_overlay_of_own_override (T : Typed) (pre post : List Request) (k : Kind) (id : String)
+    (v : Val) :
+    (T.createAll (pre ++ (k, id, some v) :: post))[pre.length]? =
+      some ((T.mech k id).bind fun m => overlay m.type m.proto v) := by
+  unfold Typed.createAll
+  rw [List.map_append, List.map_cons, List.getElem?_append_right (by simp)]
+  simp only [List.length_map, Nat.sub_self, List.getElem?_cons_zero, Typed.create]
+  cases T.mech k id <;> rfl
+
+/-- `subject: "1"` gives the subject `1`, `subject: 1` is refused — also right after the look-alike was accepted;
+the two header maps give one header and two headers -/
+example : typed₀.createAll [(.authn, "anon", typed₀.ovr 100), (.authn, "anon", typed₀.ovr 101),
+      (.fin, "f1", typed₀.ovr 102), (.fin, "f1", typed₀.ovr 103)] =
+    [some { subject := t!"1" }, none, some { headers := [(t!"X-A", t!"1 X-B:2")] },
+     some { headers := [(t!"X-A", t!"1"), (t!"X-B", t!"2")] }] := by decide
+
+/-- **A memo is harmless exactly as long as its key tells values apart.**  A factory that remembers the variants
+it has created under (kind, id, `key config`) answers every history like the factory without memo, provided `key`
+is injective. -/
+theorem c14_memo_with_injective_key_is_invisible (T : Typed) (key : Val → Text)
+    (hinj : ∀ a b, key a = key b → a = b) (h : List Request) : T.memoAll key [] h = T.createAll h :=
+  memoAll_eq_createAll T key hinj h [] (memoOk_nil T key)
+
+/-- … and a memo keyed by what `fmt.Sprint` prints is not: the rule with `subject: 1` is accepted after the rule
+with `subject: "1"` and gets that rule's authenticator; the rule that sets two headers gets the finalizer of the
+rule that sets one (the histories of the seeded defects) -/
+example : typed₀.memoAll Val.render [] [(.authn, "anon", typed₀.ovr 100), (.authn, "anon", typed₀.ovr 101),
+      (.fin, "f1", typed₀.ovr 102), (.fin, "f1", typed₀.ovr 103)] =
+    [some { subject := t!"1" }, some { subject := t!"1" }, some { headers := [(t!"X-A", t!"1 X-B:2")] },
+     some { headers := [(t!"X-A", t!"1 X-B:2")] }] ∧
+    typed₀.memoAll Val.render [] [(.authn, "anon", typed₀.ovr 101), (.authn, "anon", typed₀.ovr 100)] =
+      typed₀.createAll [(.authn, "anon", typed₀.ovr 101), (.authn, "anon", typed₀.ovr 100)] := by decide
+
+/-- **An accepted rule got mechanisms built from its own overrides — in every history.**  If one factory loads
+`pre ++ r :: post` and accepts `r`, then the effective rule is the prescribed one and every mechanism `r` names
+exists and accepts the override *value* that `r` itself carries for it (so the variant in `r`'s pipeline is
+`overlay prototype value`): what the rules of `pre` carried for the same mechanism is irrelevant. -/
+theorem c14_accepted_rule_gets_own_variants (T : Typed) (proxy validated : Bool) (d : Option DefaultRule)
+    (pre post : List RuleDef) (r : RuleDef) (f : Factory) (results : List (Except Reason Effective)) (e : Effective)
+    (hl : loadHistory T.catalogue proxy validated d (pre ++ r :: post) = .loaded f results)
+    (hk : results[pre.length]? = some (.ok e)) :
+    e = Spec.effective d r ∧
+    (∀ s ∈ r.execute, ∀ k id, s.target = some (k, id) → (T.variant k id s.config).isSome = true) ∧
+    (∀ s ∈ r.onError, ∀ id, s.errorHandler = some id → (T.variant .eh id s.config).isSome = true) := by
+  have h := c14_history_independent T.catalogue proxy validated d pre post r
+  rw [hl] at h
+  obtain ⟨res, hres, hload⟩ := h
+  rw [hk] at hres
+  cases hres
+  obtain ⟨_, hw, _, he⟩ := (c14_accepted_iff T.catalogue proxy validated d r f e).mp hload
+  refine ⟨he, ?_, ?_⟩
+  · intro s hs k id ht
+    exact step_variant_of_ok T s k id ht (hw.known s hs) (hw.overrides s hs)
+  · intro s hs id hi
+    exact ehStep_variant_of_ok T s id hi (hw.handlers s hs)
+
+/-- **A rule whose own override is refused is rejected in every history.**  If some step of `r` names a mechanism
+that does not exist or whose `WithConfig` refuses the value the step carries, `r` is rejected at whatever position
+of whatever history it is loaded — also behind rules whose overrides print like `r`'s. -/
+theorem c14_refused_override_rejected_in_every_history (T : Typed) (proxy validated : Bool) (d : Option DefaultRule)
+    (pre post : List RuleDef) (r : RuleDef) (hc : ConfigWellFormed T.catalogue d)
+    (h : (∃ s ∈ r.execute, ∃ k id, s.target = some (k, id) ∧ T.variant k id s.config = none) ∨
+      (∃ s ∈ r.onError, ∃ id, s.errorHandler = some id ∧ T.variant .eh id s.config = none)) :
+    ∃ f results why, loadHistory T.catalogue proxy validated d (pre ++ r :: post) = .loaded f results ∧
+      results[pre.length]? = some (.error why) := by
+  have hrej : ∃ why, load T.catalogue proxy validated d r = .ruleRejected why := by
+    apply c14_malformed_rejected T.catalogue proxy validated d r hc
+    rcases h with ⟨s, hs, k, id, ht, hv⟩ | ⟨s, hs, id, hi, hv⟩
+    · rcases step_not_ok_of_no_variant T s k id ht hv with h1 | h1
+      · exact Or.inr (Or.inr (Or.inl ⟨s, hs, h1⟩))
+      · exact Or.inr (Or.inr (Or.inr (Or.inl ⟨s, hs, h1⟩)))
+    · exact Or.inr (Or.inr (Or.inr (Or.inr (Or.inl ⟨s, hs, ehStep_not_ok_of_no_variant T s id hi hv⟩))))
+  obtain ⟨why, hwhy⟩ := hrej
+  have hh := c14_history_independent T.catalogue proxy validated d pre post r
+  cases hl : loadHistory T.catalogue proxy validated d (pre ++ r :: post) with
+  | configRejected w => rw [hl] at hh; simp only at hh; rw [hwhy] at hh; cases hh
+  | loaded f results =>
+    rw [hl] at hh
+    obtain ⟨res, hres, hload⟩ := hh
+    rw [hwhy] at hload
+    cases res with
+    | ok e => cases hload
+    | error w => exact ⟨f, results, w, rfl, hres⟩
+
+/-- witnesses: after the rule with `subject: "1"` the rule with `subject: 1` is rejected, in the other order the
+first one is rejected and the second one accepted; the hypotheses of the two theorems hold for these histories -/
+example :
+    loadHistory typed₀.catalogue false true none
+      [{ execute := [{ authenticator := some "anon", config := some 100 }] },
+       { execute := [{ authenticator := some "anon", config := some 101 }] }] =
+      .loaded (Spec.factory false none)
+        [.ok { authn := [⟨.authn, "anon", false, some 100⟩] }, .error .badOverride] ∧
+    loadHistory typed₀.catalogue false true none
+      [{ execute := [{ authenticator := some "anon", config := some 101 }] },
+       { execute := [{ authenticator := some "anon", config := some 100 }] }] =
+      .loaded (Spec.factory false none)
+        [.error .badOverride, .ok { authn := [⟨.authn, "anon", false, some 100⟩] }] ∧
+    typed₀.variant .authn "anon" (some 100) = some { subject := t!"1" } ∧
+    typed₀.variant .authn "anon" (some 101) = none ∧
+    typed₀.variant .fin "f1" (some 103) = some { headers := [(t!"X-A", t!"1"), (t!"X-B", t!"2")] } ∧
+    ConfigWellFormed typed₀.catalogue none := by
+  refine ⟨by decide, by decide, by decide, by decide, by decide, trivial⟩
 
 end Heimdall.Props.C14
